@@ -44,6 +44,22 @@ def main():
                 fails += 1; print('FAIL label=buildClassRegistry.cycle_walk.two_class_cycle_is_rejected program=%s detail=%s: cyclic hierarchy not answered by one Semantic diagnostic: exit %s %r' % (json.dumps(src), what, rc, out.strip()[-120:]))
             elif not cyclic and (rc != 0 or 'ok' not in out):
                 fails += 1; print('FAIL label=buildClassRegistry.cycle_walk.root_class_is_accepted program=%s detail=%s: acyclic hierarchy rejected: %r' % (json.dumps(src), what, out.strip()[-120:]))
+    # ---- validateClass: a class that does not implement an abstract method of its base's base is abstract itself, whatever the declaration order
+    SH = ('class Shape { public constructor() -> Shape = default; public virtual function sides() -> int; }\n',
+          'class Polygon extends Shape { public constructor() -> Polygon = default; }\n',
+          'class Square extends Polygon { public constructor() -> Square = default; }\n')
+    OKSQ = 'class Square extends Polygon { public constructor() -> Square = default; public override function sides() -> int { return 4; } }\n'
+    for order in itertools.permutations(range(3)):
+        for leaf_ok in (False, True):
+            parts = [SH[0], SH[1], OKSQ if leaf_ok else SH[2]]
+            src = ''.join(parts[i] for i in order) + 'function main() -> void { Square s = new Square(); echo("made"); }\n'
+            rc, out = run(bloch, src); n += 1
+            if rc == 'timeout':
+                fails += 1; print('FAIL label=buildClassRegistry.validate_class.base_class_is_validated_before_the_derived_class program=%s detail=no answer within 8 s' % json.dumps(src))
+            elif leaf_ok and (rc != 0 or 'made' not in out):
+                fails += 1; print('FAIL label=buildClassRegistry.validate_class.the_class_ends_up_validated program=%s detail=a concrete leaf class was rejected in declaration order %s: %r' % (json.dumps(src), order, out.strip()[-160:]))
+            elif not leaf_ok and (rc == 0 or 'Semantic error' not in out):
+                fails += 1; print('FAIL label=buildClassRegistry.validate_class.base_class_is_validated_before_the_derived_class program=%s detail=`new` of a class that inherits an unimplemented abstract method was accepted in declaration order %s: exit %s %r' % (json.dumps(src), order, rc, out.strip()[-160:]))
     print(json.dumps(dict(oracle_checks=n, oracle_failures=fails)))
     sys.exit(1 if fails else 0)
 main()
